@@ -579,6 +579,7 @@ func (c *Ctx) checkLoops(rr *core.RuleResult, f *core.Func, readFn *core.Func) {
 	}
 	// error variables assigned from read()
 	errVars := map[types.Object]bool{}
+	errPlaces := map[string]bool{}
 	f.OwnNodes(func(n ast.Node) bool {
 		as, ok := n.(*ast.AssignStmt)
 		if !ok || len(as.Rhs) != 1 || len(as.Lhs) != 2 || !callsFn(as.Rhs[0], readFn) {
@@ -589,6 +590,12 @@ func (c *Ctx) checkLoops(rr *core.RuleResult, f *core.Func, readFn *core.Func) {
 				errVars[o] = true
 			} else if o := info.Uses[id]; o != nil {
 				errVars[o] = true
+			}
+		}
+		// the error kept in a field of a local scanner state (x.err)
+		if se, ok := as.Lhs[1].(*ast.SelectorExpr); ok {
+			if _, isID := ast.Unparen(se.X).(*ast.Ident); isID && core.FieldOf(info, se) != nil {
+				errPlaces[exprStr(se)] = true
 			}
 		}
 		return true
@@ -684,6 +691,11 @@ func (c *Ctx) checkLoops(rr *core.RuleResult, f *core.Func, readFn *core.Func) {
 				be, ok := e.(*ast.BinaryExpr)
 				if !ok {
 					continue
+				}
+				if se, ok := ast.Unparen(be.X).(*ast.SelectorExpr); ok && isNilIdent(info, be.Y) && errPlaces[exprStr(se)] && readsIn(b) {
+					if (be.Op == token.EQL && truth) || (be.Op == token.NEQ && !truth) {
+						progress[edge{b.Index, succ.Index}] = "read"
+					}
 				}
 				if id, ok := ast.Unparen(be.X).(*ast.Ident); ok {
 					if isNilIdent(info, be.Y) && errVars[info.Uses[id]] && readsIn(b) {
